@@ -102,6 +102,9 @@ def split (s sep : Str) : List Str :=
   | _ => [s]          -- (only one-character separators occur in the translated functions; `Oidc.Generated.Code` says which)
 def idx (xs : List Str) (i : Int) : Str := xs.getD i.toNat []
 
+/-- `strings.TrimSuffix` -/
+def trimSuffix (s suf : Str) : Str := if hasSuffix s suf then s.take (s.length - suf.length) else s
+
 /-- `strings.Contains` -/
 def contains (s sub : Str) : Bool :=
   match s with
@@ -256,6 +259,28 @@ structure VOps (σ : Type) where
   blacklistSet : σ → Time → Str → Any → Duration → σ
   /-- `t.limiter.Allow()` -/
   limiterAllow : σ → Time → Bool × σ
+
+/-! ## discovery: the outside world and the clock
+
+`discoverProviderMetadata` as translated reads the clock, sleeps and fetches through the operations of `DOps` on a state `w` (the
+virtual clock and whatever the provider is going to answer live there). -/
+/-- the discovery document as far as the translated functions look at it (they only pass it on) -/
+structure Meta where
+  doc : Nat
+/-- `*http.Client`, `*Logger`: passed along, never inspected by the translated functions -/
+structure HTTPClient where
+structure Logger where
+
+structure DOps (σ : Type) where
+  /-- `time.Now()` -/
+  clock : σ → Time
+  /-- `time.Sleep(d)` -/
+  sleep : σ → Duration → σ
+  /-- `fetchMetadata(url, client)`: one HTTP attempt at the discovery endpoint -/
+  fetchMetadata : σ → Str → (Option Meta × Err) × σ
+
+/-- `time.Duration(math.Pow(2, float64(n)))` for `n ≥ 0` -/
+def pow2 (n : Int) : Duration := ((2 ^ n.toNat : Nat) : Int)
 
 /-- `for cond { body }`: runs at most `fuel` iterations; `none` when the fuel runs out (the theorems about a translated
     function with such a loop say for which fuel it does not, i.e. that the loop terminates) -/
